@@ -9,10 +9,10 @@ for d in sorted(os.listdir(root)):
         continue
     meta = json.load(open(m))
     lines = [l.rstrip() for l in open(c)]
-    meta["property"] = meta.get("property", d)
+    meta["property"] = meta.get("property", d.split("-")[0])
     meta["origin"] = meta.get("origin", "written by an independent sub-agent that saw only the property text and a scratch worktree of /repo")
     meta["what_i_ran"] = [
-        "tools/confirm_seed.sh " + d + ": git apply on a pristine export of /repo HEAD; demo.py on the unchanged and on the changed tree; "
+        "tools/confirm_seed.sh " + d.split("-")[0] + ": git apply on a pristine export of /repo HEAD; demo.py on the unchanged and on the changed tree; "
         "the repository's suite with the change (tools/baseline_off.sh); ./check <id> quick with VERIF_REPO pointing at the changed tree",
     ]
     meta["confirmation"] = lines
